@@ -134,6 +134,7 @@ type cellFixture struct {
 	refused, accepted, unbuilt map[string]int
 	notes                      []string
 	reasons                    map[string]int
+	regime                     string // which sporks are in force: "" = all (the HTLC spork), "none", "acc", "bridge"
 }
 
 func unitsOf(n int64) *big.Int {
@@ -166,12 +167,24 @@ func (f *cellFixture) prepare() error {
 	u1, u2 := g.User1, g.User2
 	constants.InitialBridgeAdministrator.SetBytes(g.User5.Address.Bytes())
 	constants.MinAdministratorDelay, constants.MinSoftDelay, constants.MinGuardians = 4, 2, 4
-	id, err := f.w.ActivateSpork("spork-htlc")
-	if err != nil {
-		return err
+	var err error
+	switch f.regime {
+	case "":
+		id, e := f.w.ActivateSpork("spork-htlc")
+		if e != nil {
+			return e
+		}
+		setHtlcSpork(id)
+		f.spork = id
+	case "acc", "bridge":
+		id, e := f.w.ActivateSpork("spork-" + f.regime)
+		if e != nil {
+			return e
+		}
+		setSporkPointer(f.regime, id)
+		f.spork = id
 	}
-	setHtlcSpork(id)
-	f.spork = id
+	withHtlc, withProject, withBridge := f.regime == "", f.regime != "none", f.regime == "" || f.regime == "bridge"
 	znn, qsr := types.ZnnTokenStandard, types.QsrTokenStandard
 	issue := func(key *wallet.KeyPair, name string) (types.ZenonTokenStandard, error) {
 		b := f.send(key, types.TokenContract, znn, constants.TokenIssueAmount,
@@ -201,17 +214,21 @@ func (f *cellFixture) prepare() error {
 	}
 	f.preimage = []byte("cells-preimage")
 	exp := f.n.Frontier().Timestamp.Unix() + 400
-	if f.htlc, err = f.must("htlc", f.send(u1, types.HtlcContract, znn, unitsOf(2),
-		definition.ABIHtlc.PackMethodPanic(definition.CreateHtlcMethodName, u2.Address, exp, uint8(0), uint8(32), types.NewHash(f.preimage).Bytes()))); err != nil {
-		return err
+	if withHtlc {
+		if f.htlc, err = f.must("htlc", f.send(u1, types.HtlcContract, znn, unitsOf(2),
+			definition.ABIHtlc.PackMethodPanic(definition.CreateHtlcMethodName, u2.Address, exp, uint8(0), uint8(32), types.NewHash(f.preimage).Bytes()))); err != nil {
+			return err
+		}
+		if f.foreignHtlc, err = f.must("htlc", f.send(u2, types.HtlcContract, znn, unitsOf(2),
+			definition.ABIHtlc.PackMethodPanic(definition.CreateHtlcMethodName, u1.Address, exp, uint8(0), uint8(32), types.NewHash(f.preimage).Bytes()))); err != nil {
+			return err
+		}
 	}
-	if f.foreignHtlc, err = f.must("htlc", f.send(u2, types.HtlcContract, znn, unitsOf(2),
-		definition.ABIHtlc.PackMethodPanic(definition.CreateHtlcMethodName, u1.Address, exp, uint8(0), uint8(32), types.NewHash(f.preimage).Bytes()))); err != nil {
-		return err
-	}
-	if f.project, err = f.must("project", f.send(u1, types.AcceleratorContract, znn, constants.ProjectCreationAmount,
-		definition.ABIAccelerator.PackMethodPanic(definition.CreateProjectMethodName, "cell project", "a project", "https://zenon.network", unitsOf(10), unitsOf(100)))); err != nil {
-		return err
+	if withProject {
+		if f.project, err = f.must("project", f.send(u1, types.AcceleratorContract, znn, constants.ProjectCreationAmount,
+			definition.ABIAccelerator.PackMethodPanic(definition.CreateProjectMethodName, "cell project", "a project", "https://zenon.network", unitsOf(10), unitsOf(100)))); err != nil {
+			return err
+		}
 	}
 	// bridge: orchestrator info and guardians, so that calls get past the "not initialised" refusals
 	admin := g.User5
@@ -256,6 +273,9 @@ func (f *cellFixture) prepare() error {
 	f.send(admin, types.LiquidityContract, types.ZeroTokenStandard, big.NewInt(0), tuple)
 	if err := f.n.ProduceN(2); err != nil {
 		return err
+	}
+	if !withBridge {
+		return nil // the calls to the bridge and the liquidity contract above were refused: the contracts are not there in this regime
 	}
 	if li, err := definition.GetLiquidityInfo(f.n.Chain.GetFrontierMomentumStore().GetAccountStore(types.LiquidityContract).Storage()); err != nil || len(li.TokenTuples) != 2 {
 		return fmt.Errorf("fixture: the liquidity token tuple is not set (%v)", err)
@@ -663,9 +683,10 @@ func (f *cellFixture) build(cc cellContract, c cell) (caller *wallet.KeyPair, to
 // ---- the child -------------------------------------------------------------------------------------
 
 type cellsArg struct {
-	Cells []cell
-	Seed  int64
-	Batch int
+	Cells  []cell
+	Seed   int64
+	Batch  int
+	Regime string // see cellFixture.regime
 }
 
 type cellsResult struct {
@@ -700,7 +721,7 @@ func cellsChild(a cellsArg) (*cellsResult, error) {
 		return nil, err
 	}
 	defer p.Stop()
-	f := &cellFixture{n: p, w: walk.New(p, a.Seed), reasons: res.Reasons}
+	f := &cellFixture{n: p, w: walk.New(p, a.Seed), reasons: res.Reasons, regime: a.Regime}
 	if err := f.prepare(); err != nil {
 		return nil, err
 	}
@@ -773,6 +794,21 @@ func cellRuns(run *core.Run, batches int) []ledgerRun {
 		b := (i + int(run.Seed)) % batches
 		args[b].Cells = append(args[b].Cells, c)
 	}
+	// "under every spork regime": three more batches replay a sample of the cells with no spork, with the accelerator spork only,
+	// and with the bridge-and-liquidity spork but without the HTLC one (calls to contracts that are not there yet are refused
+	// when they are sent; the others meet the older method tables)
+	for ri, regime := range []string{"none", "acc", "bridge"} {
+		a := cellsArg{Regime: regime}
+		stride := 3
+		if run.Thorough() {
+			stride = 1
+		}
+		for i := (int(run.Seed) + ri) % stride; i < len(cells); i += stride {
+			a.Cells = append(a.Cells, cells[i])
+		}
+		args = append(args, a)
+	}
+	batches = len(args)
 	outs := make([]cellsResult, batches)
 	crashes := make([]*core.Crash, batches)
 	errs := make([]error, batches)
@@ -818,7 +854,7 @@ func cellRuns(run *core.Run, batches int) []ledgerRun {
 		runs = append(runs, outs[i].Run)
 		stats = append(stats, outs[i].Stats)
 	}
-	run.Set("call_cells", fmt.Sprintf("%d cells over %d methods of %d contracts (CallCells.tla: MaxDev=%d, MaxDevDeep=%d for %s); %d not encodable", len(cells), nm, len(cellContracts()), maxDev, maxDeep, deep, unbuilt))
+	run.Set("call_cells", fmt.Sprintf("%d cells over %d methods of %d contracts (CallCells.tla: MaxDev=%d, MaxDevDeep=%d for %s), all of them with every spork in force and a sample of them (a third in the quick tier, all in the thorough one) under three older regimes - no spork, accelerator only, bridge-and-liquidity without HTLC; %d not encodable", len(cells), nm, len(cellContracts()), maxDev, maxDeep, deep, unbuilt))
 	run.Set("call_cells_accepted_by_contract", accepted)
 	run.Set("call_cells_refused_at_send_by_contract", refused)
 	run.Set("call_cells_batches", stats)
